@@ -959,6 +959,21 @@ def check_run(ctx, prop, build, label, rp, max_ti=None):
     m = impl_call("Model()", lambda: Model(settings, fw, parset, progset, instr), refusals)
     run.m, run.fw, run.parset = m, fw, parset
     run.caller_instr, run.caller_progset = instr, progset
+    # "a scenario on a function parameter suspends the function from its first overwrite year onward": stated from the scenario SPEC, independently of what get_parset recorded
+    for s_ in ((rp.get("spec") or {}).get("scen") or []):
+        try:
+            has_fn = isinstance(fw.pars.at[s_["par"], "function"], str)
+        except Exception:
+            has_fn = False
+        if not has_fn:
+            continue
+        sk = parset.pars[s_["par"]].skip_function[s_["pop"]] if s_["pop"] in parset.pars[s_["par"]].skip_function else None
+        y0 = float(min(s_["t"]))
+        ctx.count("scenario.function_suspension_checked")
+        if not sk or abs(float(sk[0]) - y0) > 1e-9 or math.isfinite(float(sk[1])):
+            ctx.violation({"api": "ParameterScenario.get_parset", "case": "function-not-suspended"},
+                          f"{label}: the scenario overwrites the function parameter {s_['par']} in population {s_['pop']} from {y0}, but the function is "
+                          f"{'not suspended there at all' if not sk else 'suspended over ' + repr(tuple(float(x) for x in sk))} (it would replace the scenario values)", rp)
     run.outcome_calls, run.cov_calls, run.n_outcome_calls, run.pre_popsize = {}, {}, {}, {}
     observe_preflush(m, run.pre_popsize)
     ps = m.progset
